@@ -295,6 +295,9 @@ class FormatMachine(MachineBase):
         exp_now = None if (s.tainted or (verdict == UNSPEC and not self.keeps_roundtrip_oracle(why))) else self.expected_loaded(s)
         self.durable[path] = {"expected": exp_now, "bytes": after, "clean": True,
                               "kw": dict((k, op[k]) for k in ("main_variant",) if k in op)}
+        if exp_now is None and s.tainted and getattr(s, "self_rt", False):
+            # no model for this object, but the file is the library's own output for it: it loads and re-dumps identically
+            self.durable[path]["self_rt"] = True
         if exp_now is not None and self.order_ambiguous(exp_now):
             self.durable[path]["lossy"] = True
         return "ok"
@@ -539,7 +542,7 @@ class FormatMachine(MachineBase):
                                 {"error": exc_class(e), "msg": str(e)[:200], "via": via})
             if d.get("must") == "reject":
                 self.count(d["must_prop"], ["rejected", d["must_key"], via])
-            if d["clean"] and d["expected"] is not None:
+            if d["clean"] and (d["expected"] is not None or d.get("self_rt")):
                 P2 = self.prop_for_diff("/forest") if hasattr(self, "prop_for_diff") and self.cfg.get("focus") == "C11" and self.FORMAT == "composeinfo" else P
                 raise Violation(P2, "%s.own_output_loads" % P2, "own-output-rejected/%s/%s" % (self.FORMAT, exc_class(e)),
                                 {"error": exc_class(e), "msg": str(e)[:200], "via": via})
@@ -560,14 +563,30 @@ class FormatMachine(MachineBase):
                 raise Violation(P, "%s.reloaded_object_dumps" % P, "redump-raises/%s/%s" % (self.FORMAT, exc_class(e)),
                                 {"error": exc_class(e), "msg": str(e)[:200]})
             if text.encode("utf-8") != d["bytes"] and not d.get("lossy"):
+                if self.cfg.get("focus") == "C08":
+                    P = "C08"       # equal content (the observation above), different bytes: in a C08 run it is C08's finding
                 raise Violation(P, "%s.redump_byte_identical" % P, "redump-differs/%s" % self.FORMAT,
                                 {"diff": _text_diff(d["bytes"].decode("utf-8", "replace"), text)})
             s.obj = new
             s.model = self.model_from_expected(s, d["expected"])
             s.tainted = False
+            s.self_rt = False
             self.rebind(s)
             self.nrestarts += 1
             return "restarted"
+        if d["clean"] and d.get("self_rt"):
+            self.count(P, ["restart-self", via])
+            try:
+                text = self.redump(new, d)
+            except Exception as e:
+                if isinstance(e, HarnessError):
+                    raise
+                raise Violation(P, "%s.reloaded_object_dumps" % P, "redump-raises/%s/%s" % (self.FORMAT, exc_class(e)),
+                                {"error": exc_class(e), "msg": str(e)[:200]})
+            if text.encode("utf-8") != d["bytes"]:
+                PR = "C08" if self.cfg.get("focus") == "C08" else P
+                raise Violation(PR, "%s.redump_byte_identical" % PR, "redump-differs/%s" % self.FORMAT,
+                                {"diff": _text_diff(d["bytes"].decode("utf-8", "replace"), text)})
         if d.get("must") == "reject":
             raise Violation(d["must_prop"], "%s.bad_document_rejected" % d["must_prop"],
                             "bad-document-loaded/%s" % d["must_key"], {"via": via, "what": d["must_key"]})
